@@ -34,9 +34,16 @@ def flatten(ops, results):
 def val(st):
     return frac(st["m"]) if "m" in st and len(st["m"]) == 3 else None
 
-def judge(c, tag, table_desc, inst, ops, results, info_at, tol_of, bad_edges, stats, deg):
+def judge(c, tag, table_desc, inst, ops, results, info_at, tol_of, bad_edges, stats, deg, ratios=None):
     """evaluate the five relations of one instance; info_at(i, j) -> dict(model_ok, diag) of step j of op i"""
     a, b, cc, m, k = inst
+    # instances whose exact values leave the range of a double (yocto x yobi^-3 ...) underflow to 0.0 / overflow to inf: that is the
+    # number format, not the conversion; they are counted and skipped
+    if ratios:
+        for rt in ratios:
+            if rt is not None and rt != 0 and not (Fraction(1, 10**250) < abs(frac(m) * rt) < Fraction(10**250)):
+                stats["outside_float_range"] = stats.get("outside_float_range", 0) + 1
+                return
     there_back, scaled, zero, own, via, neg = [r["steps"] for r in results]
     repl = {"table": table_desc, "a": a, "b": b, "c": cc, "m": m, "k": k,
             "implementation": [[{kk: st.get(kk) for kk in ("m_in", "m", "err")} for st in r["steps"]] for r in results]}
@@ -119,7 +126,8 @@ def main():
         deg = max(sp.degree(inst[0]), sp.degree(inst[1]), sp.degree(inst[2]))
         c.count({"inst": inst}, nontrivial=(inst[0] != inst[1]))
         judge(c, "ship", "shipped", inst, ops[6 * n:6 * n + 6], r["results"][6 * n:6 * n + 6],
-              lambda i, j, n=n: at.get((6 * n + i, j)), lambda d: Fraction(1, 10**5) * d, bad_edges, stats, deg)
+              lambda i, j, n=n: at.get((6 * n + i, j)), lambda d: Fraction(1, 10**5) * d, bad_edges, stats, deg,
+              ratios=[sp.size_ratio(inst[0], inst[1]), sp.size_ratio(inst[0], inst[2]), sp.size_ratio(inst[1], inst[0])])
     c.sample({"a": insts[0][0], "b": insts[0][1], "c": insts[0][2], "m": insts[0][3], "k": insts[0][4],
               "steps": [[st.get("m") or st.get("err") for st in x["steps"]] for x in r["results"][:6]]})
     # ---------------- synthetic
